@@ -190,6 +190,13 @@ def judge_tokens_scoped(dv_in: A.DocView, op, res, depth: int, segs: list[str], 
         elif n_out == n_in and depth <= n_in:
             loc_in = J.find_written(dv_in.layers[-depth], segs)
             loc_out = J.find_written(dv_out.layers[-depth], segs)
+            if loc_in is None and len(segs) > 1 and not any(
+                    b.kind == "bind" and b.path and b.path[0] == segs[0] for b in dv_in.layers[-depth]):
+                # a fresh dotted path whose root did not exist in the layer: the created root
+                # binding (`root = { leaf = v; };`) is what the operation wrote
+                loc_root = J.find_written(dv_out.layers[-depth], segs[:1])
+                if loc_root is not None:
+                    loc_out = loc_root
             if loc_out is None:
                 return keys
             bo = loc_out[0][loc_out[1]]
